@@ -224,11 +224,13 @@ def reference(report_paths, case, sc, opts):
         "least-nested": lambda sg: -min(info[p]["depth"] for p in sg),
     }
     # highest priority (= first to be dropped) goes last; priorities given first dominate
+    # ("top" / "bottom" rank by the position in the report: a total order - whatever is given after them decides nothing)
+    position = {id(sg): i for i, sg in enumerate(subs)}
     for pr in reversed(case["prio"]):
         if pr == "top":
-            subs.reverse()
+            subs.sort(key=lambda sg: -position[id(sg)])
         elif pr == "bottom":
-            pass
+            subs.sort(key=lambda sg: position[id(sg)])
         else:
             subs.sort(key=keyf[pr])
     import fnmatch
